@@ -39,13 +39,17 @@ def h1(ctx):
         ev, res = ctx.eval(b)
         ds = [e for e in res.log if e["kind"] == "call" and not e["chain"] and e["callee"].endswith("Allocator::dealloc")]
         dips = [e for e in res.log if e["kind"] == "call" and not e["chain"] and e.get("effect") == "drop_in_place"]
+        # the flag is not assigned inside the Drop body, so every read of it (before or after the value's destructor ran) is the same value
+        FT = canon(flag_term(flag), {flag})
+        wr = [e for e in res.log if is_heap_store(e) and e["path"] and e["path"][-1] == flag]
+        yield Ob(key_of("C13-H1", b.path, "flag-stable"), not wr, "self.%s is not assigned in the Drop body" % flag, b.loc())
         yield Ob(key_of("C13-H1", b.path, "has-dealloc"), len(ds) >= 1, "%d dealloc call site(s)" % len(ds), b.loc())
         for i, e in enumerate(ds):
             a = [canon(x, {"allocated"}) for x in e["args"]]
             ok_args = a[1] == field(SELF, "allocated", "memory_offset") and a[2] == field(SELF, "allocated", "memory_size")
             yield Ob(key_of("C13-H1", b.path, "dealloc-args", i + 1), ok_args, "dealloc(%s, %s)" % (short(a[1], 60), short(a[2], 60)), ctx.loc(e))
-            fs = ctx.facts_of(ev, e)
-            ok_nd = ("bool", flag_term(flag), False) in fs
+            fs = set(canon(f, {flag}) for f in ctx.facts_of(ev, e))
+            ok_nd = ("bool", FT, False) in fs
             yield Ob(key_of("C13-H1", b.path, "dealloc-not-detached", i + 1), ok_nd, "dealloc only where self.%s is false" % flag, ctx.loc(e))
         # at most once: no dealloc block reaches another
         multi = [(x["bb"], y["bb"]) for x in ds for y in ds if x is not y and y["bb"] in b.reach(x["bb"])]
@@ -54,7 +58,7 @@ def h1(ctx):
         removed = set()
         for x, c in res.conds.items():
             t = b.blocks[x]["term"]
-            if c == flag_term(flag):
+            if canon(c, {flag}) == FT:
                 # true edge
                 removed.add((x, t["otherwise"]))
             if tag(c) == "discr" and tag(c[1]) == "hload" and c[1][2] in (("arena",), ("kind",)):
@@ -71,8 +75,8 @@ def h1(ctx):
         bad = [r for r in b.returns() if r in reach]
         yield Ob(key_of("C13-H1", b.path, "dealloc-on-every-live-path"), not bad, "every non-detached path of a handle with memory reaches a dealloc before returning", b.loc())
         for i, e in enumerate(dips):
-            fs = ctx.facts_of(ev, e)
-            yield Ob(key_of("C13-H1", b.path, "drop_in_place-not-detached", i + 1), ("bool", flag_term(flag), False) in fs, "drop_in_place only where the handle is not detached", ctx.loc(e))
+            fs = set(canon(f, {flag}) for f in ctx.facts_of(ev, e))
+            yield Ob(key_of("C13-H1", b.path, "drop_in_place-not-detached", i + 1), ("bool", FT, False) in fs, "drop_in_place only where the handle is not detached", ctx.loc(e))
         multi = [(x["bb"], y["bb"]) for x in dips for y in dips if x is not y and y["bb"] in b.reach(x["bb"])]
         if hname in ("Owned", "RefMut"):
             yield Ob(key_of("C13-H1", b.path, "drop_in_place-at-most-once"), len(dips) >= 1 and not multi, "value dropped at most once per path (%d site(s))" % len(dips), b.loc())
